@@ -229,4 +229,9 @@ def segCells : Nat → List HexCell
 def keptSegments (rings : Nat) (drop : List Nat) : List Nat :=
   (List.range (segCells rings).length).filter fun s => !drop.contains s
 
+/-- the (segment number, cell) pairs `hex_segments(rings, drop=…)` draws, in order: the REGENERATED translation of its numbering (centre test,
+`seg` counter, ring loops, drop test) — `Gen.keptCells`; `segCells` / `keptSegments` above are the closed forms the theorems use
+(`keptCells_spec`) -/
+def keptCells (rings : Nat) (drop : List Nat) : List (Nat × HexCell) := Gen.keptCells rings drop
+
 end Lentil
